@@ -47,6 +47,7 @@ var c09Anchors = []c09Anchor{
 	{"", "Transport", []string{"idleConn", "idleConnWait", "idleLRU", "connsPerHost", "connsPerHostWait", "dialsInProgress"}}, // 2..7
 	{"internal/http2", "clientConnPool", []string{"conns", "dialing", "keys", "addConnCalls"}},                                // 8..11
 	{"internal/http3", "RoundTripper", []string{"clients"}},                                                                   // 12
+	{"internal/http3", "RoundTripper", []string{"transport"}},                                                                 // 13 (lazily created quic.Transport; finding C09-4)
 }
 
 // Setup-time setters: documented to be called while configuring, not concurrently with
